@@ -41,6 +41,17 @@ def textD (op : String) (a : List Nat) : Option String :=
   | "corruptws" => some <| match runP (do let t ← pGText; let _seed ← pNat; let _iw ← pNat; let _dw ← pNat; let d ← pList (pPair pBool pBool); pure (t, d)) a with
       | some (t, d) => if d.length != t.length then reject else ok (eNats (corruptWsCl t d).flatten)
       | none => reject
+  | "wstable" => some <| match a with
+      -- all White_Space code points in [lo, hi)
+      | [lo, hi] => ok (eNats ((List.range (hi - lo)).filterMap (fun k => if isWsCp (lo + k) then some (lo + k) else none)))
+      | _ => reject
+  | "utf8table" => some <| match a with
+      -- UTF-8 encodings of the scalar values in [lo, hi): a running checksum over the bytes plus the total length
+      | [lo, hi] =>
+        let cps := (List.range (hi - lo)).filterMap (fun k => if isScalar (lo + k) then some (lo + k) else none)
+        let bytes := cps.flatMap utf8
+        ok [cps.length, bytes.length, bytes.foldl (fun acc b => (acc * 257 + b + 1) % 1000000007) 7]
+      | _ => reject
   | _ => none
 
 end Tu.Drive
